@@ -28,7 +28,6 @@ func TestKnownStreamingSharedMaterial(t *testing.T) {
 	evid.Case("known/streaming-shared-material", true, 1, func() any {
 		return "two ENABLED AES-CTR-HMAC streaming keys with equal key bytes, tag sizes 10 and 16; 15-byte stream written by the primary"
 	})
-	evid.Case("known/streaming-shared-material", true, 2, nil)
 	keyBytes := bytes.Repeat([]byte{0xff}, 32)
 	mk := func(tag int, seg int32) *aesctrhmac.Key {
 		p, err := aesctrhmac.NewParameters(aesctrhmac.ParametersOpts{KeySizeInBytes: 32, DerivedKeySizeInBytes: 32, HkdfHashType: aesctrhmac.SHA512, HmacHashType: aesctrhmac.SHA1, HmacTagSizeInBytes: tag, SegmentSizeInBytes: seg})
@@ -43,9 +42,13 @@ func TestKnownStreamingSharedMaterial(t *testing.T) {
 	}
 	k10, k16 := mk(10, 51), mk(16, 57)
 	m := keyset.NewManager()
-	id10, _ := m.AddKey(k10)
-	id16, _ := m.AddKey(k16)
-	_ = id10
+	if _, err := m.AddKey(k10); err != nil {
+		t.Fatalf("harness: AddKey(10-byte-tag key): %v", err)
+	}
+	id16, err := m.AddKey(k16)
+	if err != nil {
+		t.Fatalf("harness: AddKey(16-byte-tag key): %v", err)
+	}
 	if err := m.SetPrimary(id16); err != nil {
 		t.Fatal(err)
 	}
@@ -63,14 +66,26 @@ func TestKnownStreamingSharedMaterial(t *testing.T) {
 	if err != nil {
 		t.Fatal(err)
 	}
-	wr.Write(msg)
-	wr.Close()
-	single, _ := streamingaead.New(tk.Must(tk.HandleFromKey(k16)))
-	r, _ := single.NewDecryptingReader(bytes.NewReader(buf.Bytes()), nil)
+	if _, err := wr.Write(msg); err != nil {
+		t.Fatalf("Write through the keyset primitive: %v", err)
+	}
+	if err := wr.Close(); err != nil {
+		t.Fatalf("Close of the keyset primitive's writer: %v", err)
+	}
+	single, err := streamingaead.New(tk.Must(tk.HandleFromKey(k16)))
+	if err != nil {
+		t.Fatalf("harness: streamingaead.New(one-key handle of the primary): %v", err)
+	}
+	r, err := single.NewDecryptingReader(bytes.NewReader(buf.Bytes()), nil)
+	if err != nil {
+		t.Fatalf("NewDecryptingReader of the primary key alone: %v", err)
+	}
 	if pt, err := io.ReadAll(r); err != nil || !bytes.Equal(pt, msg) {
 		t.Fatalf("the primary key alone does not decrypt its own stream: %v", err)
 	}
-	r, _ = w.NewDecryptingReader(bytes.NewReader(buf.Bytes()), nil)
+	if r, err = w.NewDecryptingReader(bytes.NewReader(buf.Bytes()), nil); err != nil {
+		t.Fatalf("NewDecryptingReader of the keyset primitive: %v", err)
+	}
 	pt, err := io.ReadAll(r)
 	if err != nil || !bytes.Equal(pt, msg) {
 		if kf.Listed("C05", sig) {
